@@ -3,4 +3,5 @@ NEXT TNext
 CONSTANTS
   MaxTargets = 3
   ChainAny = FALSE
+  FlagBlind = FALSE
 CHECK_DEADLOCK FALSE
